@@ -1825,7 +1825,10 @@ Qed.
     data_block/mod.rs:212 / :257 skip it. *)
 Theorem datablock_roundtrip_tomb_value_refuted :
   exists hash ri nb items,
-    items <> [] /\ sorted_b items = true /\ Forall entry_wf items /\ 1 <= ri <= 255 /    block_small (encode_block hash ri nb items) /    decode_all (encode_block hash ri nb items) <> Some items /    decode_all (encode_block hash ri nb items)
+    items <> [] /\ sorted_b items = true /\ Forall entry_wf items /\ 1 <= ri <= 255 /\
+    block_small (encode_block hash ri nb items) /\
+    decode_all (encode_block hash ri nb items) <> Some items /\
+    decode_all (encode_block hash ri nb items)
       = Some (map (fun e => if is_tomb e then mkE (ukey e) (seq e) (ty e) [] else e) items).
 Proof.
   exists (fun _ => 0), 16, 0, [mkE [100] 1 Tomb [100]].
@@ -1867,7 +1870,8 @@ Qed.
 Example header_ex :
   let x := fun l : list N => fold_left (fun a b => a * 257 + b) l 1 in
   let h := mkH BData 5 252356 124124124 in
-  length (encode_header x h) = header_serialized_len /  decode_header x (encode_header x h) = Some (h, []).
+  length (encode_header x h) = header_serialized_len /\
+  decode_header x (encode_header x h) = Some (h, []).
 Proof. vm_compute. split; reflexivity. Qed.
 
 (** * O. Replays of the crate's unit tests (data_block/mod.rs) and instances *)
@@ -1884,7 +1888,10 @@ Definition s_yyy : key := [121;121;121].
 Example data_block_point_read_one :
   let items := [mkE s_pla_earth_fact 0 Value s_earth] in
   let B := encode_block toy_hash 16 0 items in
-  block_len B = Some 1 /\ length B = 63%nat /  point_read toy_hash B s_pla_earth_fact SEQNO_MAX = Some (mkE s_pla_earth_fact 0 Value s_earth) /  point_read_res toy_hash B s_yyy SEQNO_MAX = Some None /  decode_all B = Some items.
+  block_len B = Some 1 /\ length B = 63%nat /\
+  point_read toy_hash B s_pla_earth_fact SEQNO_MAX = Some (mkE s_pla_earth_fact 0 Value s_earth) /\
+  point_read_res toy_hash B s_yyy SEQNO_MAX = Some None /\
+  decode_all B = Some items.
 Proof. vm_compute. repeat split. Qed.
 
 (** [data_block_point_read_simple]: restart intervals 1..16; note the tombstone "d" with a
@@ -1907,7 +1914,9 @@ Example data_block_point_read_dense :
   let items := [mkE [97] 3 Value [97]; mkE [98] 2 Value [98]; mkE [99] 1 Value [99];
                 mkE [100] 65 Value [100]] in
   let B := encode_block toy_hash 1 0 items in
-  option_map t_binlen (read_trailer B) = Some 4 /  map (fun e => point_read toy_hash B (ukey e) SEQNO_MAX) items = map Some items /  point_read_res toy_hash B s_yyy SEQNO_MAX = Some None.
+  option_map t_binlen (read_trailer B) = Some 4 /\
+  map (fun e => point_read toy_hash B (ukey e) SEQNO_MAX) items = map Some items /\
+  point_read_res toy_hash B s_yyy SEQNO_MAX = Some None.
 Proof. vm_compute. repeat split. Qed.
 
 (** [data_block_mvcc_read_first] and [data_block_vhandle] *)
@@ -1927,7 +1936,9 @@ Proof. vm_compute. reflexivity. Qed.
 Example data_block_point_read_fuzz_2 :
   let items := [mkE [0] 5 Value []; mkE [0] 4 Tomb []; mkE [0] 3 Value []; mkE [0] 0 Value []] in
   let B := encode_block toy_hash 2 0 items in
-  block_len B = Some 4 /\ get_hash_index_reader B = Some None /  map (fun e => point_read toy_hash B (ukey e) (seq e + 1)) items = map Some items /  point_read_res toy_hash B s_yyy SEQNO_MAX = Some None.
+  block_len B = Some 4 /\ get_hash_index_reader B = Some None /\
+  map (fun e => point_read toy_hash B (ukey e) (seq e + 1)) items = map Some items /\
+  point_read_res toy_hash B s_yyy SEQNO_MAX = Some None.
 Proof. vm_compute. repeat split. Qed.
 
 (** [data_block_point_read_shadowing]: hash ratio 1.33 on 5 items = 6 buckets; the newest
@@ -1942,17 +1953,26 @@ Example data_block_point_read_shadowing :
      mkE venus_fact 0 Value [86;101;110;117;115;32;101;120;105;115;116;115];
      mkE [112;108;97;58;118;101;110;117;115;58;110;97;109;101] 0 Value [86;101;110;117;115]] in
   let B := encode_block toy_hash 16 6 items in
-  option_map (option_map (@length N)) (get_hash_index_reader B) = Some (Some 6%nat) /  point_read toy_hash B venus_fact SEQNO_MAX = Some (mkE venus_fact 1 Tomb []) /  point_read toy_hash B venus_fact 1 = Some (mkE venus_fact 0 Value [86;101;110;117;115;32;101;120;105;115;116;115]) /  decode_all B = Some items /  let items2 := [mkE [97] 3 Value [97]; mkE [97] 2 Value [97]; mkE [97] 1 Value [97];
+  option_map (option_map (@length N)) (get_hash_index_reader B) = Some (Some 6%nat) /\
+  point_read toy_hash B venus_fact SEQNO_MAX = Some (mkE venus_fact 1 Tomb []) /\
+  point_read toy_hash B venus_fact 1 = Some (mkE venus_fact 0 Value [86;101;110;117;115;32;101;120;105;115;116;115]) /\
+  decode_all B = Some items /\
+  let items2 := [mkE [97] 3 Value [97]; mkE [97] 2 Value [97]; mkE [97] 1 Value [97];
                  mkE [98] 65 Value [98]] in
   let B2 := encode_block toy_hash 1 5 items2 in
-  map (fun e => point_read toy_hash B2 (ukey e) (seq e + 1)) items2 = map Some items2 /  point_read_res toy_hash B2 s_yyy SEQNO_MAX = Some None.
+  map (fun e => point_read toy_hash B2 (ukey e) (seq e + 1)) items2 = map Some items2 /\
+  point_read_res toy_hash B2 s_yyy SEQNO_MAX = Some None.
 Proof. vm_compute. repeat split. Qed.
 
 (** hash_index/mod.rs tests [hash_index_build_conflict], [_same_offset], [_mix],
     [hash_index_read_conflict] (one bucket: independent of the hash) *)
 Example hash_index_tests :
   let h0 := [MARKER_FREE] in
-  hash_set toy_hash (hash_set toy_hash h0 [97] 5) [98] 8 = [255] /  hash_set toy_hash (hash_set toy_hash h0 [97] 5) [98] 5 = [5] /  hash_set toy_hash (hash_set toy_hash (hash_set toy_hash h0 [97] 5) [98] 5) [99] 6 = [255] /  hash_get toy_hash [255] [99] = MARKER_CONFLICT /  hash_get toy_hash [5] [98] = 5.
+  hash_set toy_hash (hash_set toy_hash h0 [97] 5) [98] 8 = [255] /\
+  hash_set toy_hash (hash_set toy_hash h0 [97] 5) [98] 5 = [5] /\
+  hash_set toy_hash (hash_set toy_hash (hash_set toy_hash h0 [97] 5) [98] 5) [99] 6 = [255] /\
+  hash_get toy_hash [255] [99] = MARKER_CONFLICT /\
+  hash_get toy_hash [5] [98] = 5.
 Proof. vm_compute. repeat split. Qed.
 
 (** all three paths of [point_read] in one block: a FREE bucket, a CONFLICT bucket and a
@@ -1961,15 +1981,21 @@ Example point_read_three_paths :
   let items := [mkE [97] 9 Value [1]; mkE [97] 4 Value [2]; mkE [98] 7 Tomb []; mkE [99] 1 Value [3];
                 mkE [100] 2 Value [4]; mkE [101] 3 Value [5]] in
   let B := encode_block toy_hash 2 4 items in
-  get_hash_index_reader B = Some (Some [255; 254; 2; 0]) /  map (fun k => hash_get toy_hash [255; 254; 2; 0] [k]) [97; 98; 99; 100; 101; 102]
-    = [0; 255; 255; 255; 2; 254] /  map (fun k => point_read toy_hash B [k] 8) [97; 98; 99; 100; 101; 102]
+  get_hash_index_reader B = Some (Some [255; 254; 2; 0]) /\
+  map (fun k => hash_get toy_hash [255; 254; 2; 0] [k]) [97; 98; 99; 100; 101; 102]
+    = [0; 255; 255; 255; 2; 254] /\
+  map (fun k => point_read toy_hash B [k] 8) [97; 98; 99; 100; 101; 102]
     = map (fun k => newest [k] 8 items) [97; 98; 99; 100; 101; 102].
 Proof. vm_compute. repeat split. Qed.
 
 (** instances of the main theorems' hypotheses *)
 Example datablock_theorems_ex :
   let items := [mkE [97] 9 Value [1]; mkE [97] 4 Value [2]; mkE [98] 7 Tomb []; mkE [99] 1 Ind [3;4]] in
-  items <> [] /\ sorted_b items = true /\ forallb entry_wfb items = true /  block_small (encode_block toy_hash 2 5 items) /  bytes_wfb (encode_block toy_hash 2 5 items) = true /  decode_all (encode_block toy_hash 2 5 items) = Some items /  point_read toy_hash (encode_block toy_hash 2 5 items) [97] 9 = newest [97] 9 items.
+  items <> [] /\ sorted_b items = true /\ forallb entry_wfb items = true /\
+  block_small (encode_block toy_hash 2 5 items) /\
+  bytes_wfb (encode_block toy_hash 2 5 items) = true /\
+  decode_all (encode_block toy_hash 2 5 items) = Some items /\
+  point_read toy_hash (encode_block toy_hash 2 5 items) [97] 9 = newest [97] 9 items.
 Proof. vm_compute. repeat split; discriminate. Qed.
 
 (** ** Reverse and mixed iteration (model only: executable, checked on instances) *)
